@@ -194,3 +194,21 @@ def c13d(ctx):
     ok = any(is_call(x, 'self.tile_mgr.is_cached') for x in ic.walk())
     ctx.check(ok, 'TileCreator.is_cached:delegates-to-manager', 'TileCreator.is_cached delegates to the staleness-aware TileManager.is_cached', ic,
               fail='TileCreator.is_cached bypasses the staleness test of the tile manager')
+
+
+@rule('C13.e', floor=2)
+def c13e(ctx):
+    """the staleness comparison runs exactly for existing tiles with a threshold"""
+    fn = ctx.fn(TILE + ':TileManager.is_cached')
+    g = fn.cfg
+    md = g.find(lambda x: is_call(x, 'load_tile_metadata'))
+    ok = bool(md)
+    for n, x in md:
+        ok = ok and g.guarded(n, lambda at: at.op is None and unparse(at.expr) == 'cached', True) and \
+            g.guarded(n, lambda at: at.op == '==' and 'max_mtime' in at.text and 'None' in at.text, False)
+    ctx.check(ok, 'TileManager.is_cached:test-iff-cached-and-threshold', 'the timestamp is loaded and compared only if the tile exists and a threshold is set', fn,
+              fail='the staleness test runs for missing tiles or without a threshold (or never)')
+    c = g.find(lambda x: is_call(x, 'self.cache.is_cached'))
+    rets = g.find_stmts(lambda s: isinstance(s, ast.Return) and unparse(s.value) == 'cached')
+    ok = len(c) == 1 and bool(rets)
+    ctx.check(ok, 'TileManager.is_cached:starts-from-backend', 'the answer starts from cache.is_cached() and is only ever lowered by the staleness test', fn)
